@@ -110,19 +110,22 @@ theorem processEvent_queue (cfg : Cfg) (st : PState) (ev : Event) :
     ((processEvent cfg st ev).1.queue = st.queue ∨
       (processEvent cfg st ev).1.queue = ev.srv :: st.queue) ∧
     (st.disableUdp = true → (processEvent cfg st ev).1.disableUdp = true) ∧
-    (ev.reply = some .tc → (processEvent cfg st ev).1.queue = ev.srv :: st.queue ∧
+    ((ev.reply = some .tc ∨ ev.reply = some .cm) →
+      (processEvent cfg st ev).1.queue = ev.srv :: st.queue ∧
       (processEvent cfg st ev).1.disableUdp = true) := by
   unfold processEvent
   split <;> simp_all
   split <;> simp_all
 
 /-- a batch that does not end the lookup: the re-queued servers sit at the front of the queue, at most
-one per reply, every server that answered truncated is among them and UDP is then disabled -/
+one per reply, every server that answered truncated (or with a case mismatch) is among them and UDP is
+then disabled -/
 theorem processEvents_queue (cfg : Cfg) (evs : List Event) :
     ∀ (st st' : PState), processEvents cfg st evs = (st', none) →
       ∃ pre, st'.queue = pre ++ st.queue ∧ pre.length ≤ evs.length ∧
         (st.disableUdp = true → st'.disableUdp = true) ∧
-        (∀ ev ∈ evs, ev.reply = some .tc → ev.srv ∈ pre ∧ st'.disableUdp = true) := by
+        (∀ ev ∈ evs, (ev.reply = some .tc ∨ ev.reply = some .cm) →
+          ev.srv ∈ pre ∧ st'.disableUdp = true) := by
   induction evs with
   | nil =>
     intro st st' h
@@ -196,12 +199,13 @@ theorem round_batch_log (cfg : Cfg) (dl : Nat) (st : PState) (h : st.clock < dl)
   have := processEvents_log cfg (afterSend cfg st) (sortEvents (eventsOf cfg st))
   split <;> (rename_i heq; rw [heq] at this; simpa [RoundOut.state, afterSend, cancelInFlight] using this)
 
-/-- **truncated ⇒ TCP**.  If in some round the request to server `s` ends with a truncated reply, `s`
+/-- **truncated ⇒ TCP** (and case-randomisation mismatch ⇒ TCP).  If in some round the request to
+server `s` ends with a truncated reply (or a reply whose query case does not match), `s`
 has a TCP configuration, the round does not end the lookup and the deadline has not passed, then the
 very next round asks `s` again, over TCP, at once — before any server that has not been asked yet. -/
 theorem truncated_then_tcp (cfg : Cfg) (dl : Nat) (st st' : PState) (s : Nat)
     (hround : round cfg dl st = .next st')
-    (hev : ∃ ev ∈ eventsOf cfg st, ev.srv = s ∧ ev.reply = some .tc)
+    (hev : ∃ ev ∈ eventsOf cfg st, ev.srv = s ∧ (ev.reply = some .tc ∨ ev.reply = some .cm))
     (htcp : (server cfg s).tcp.isSome = true) (hdl : st'.clock < dl) :
     (s, (⟨.tcp, st'.clock⟩ : Xch)) ∈ (round cfg dl st').state.log := by
   obtain ⟨ev, hmem, hsrv, htc⟩ := hev
